@@ -31,7 +31,8 @@ META = {
 def shape(ev, clause):
     if ev['ev'] != 'run':
         fm = ev.get('fmap', [])
-        return 'split|%s|%s' % ('colliding_tag_values' if len(set(fm)) < len(fm) else 'distinct_tag_values',
+        empty = any(f == len(fm) + 1 for f in fm)
+        return 'split|%s|%s' % (('tag_value_cleans_to_empty_name' if empty else 'colliding_tag_values') if len(set(fm)) < len(fm) or empty else 'distinct_tag_values',
                                 'tool_does_not_end' if ev.get('raised') == 'Hang' else 'passes=%s' % min(ev.get('passes', 0), 3))
     if clause == 'Inv_C19_Content' and ev.get('stale'):
         for f in ev['final']:
